@@ -8,7 +8,9 @@ from vmon.scale import S
 ID = 'C06'
 RULE = ('cases = a stacked call (1..3 leading axes of sizes 1..5, different content per slice) versus the same call on every '
         'slice alone: fit and log_pdf of the eight single distributions, fit/predict of cACGMM, cWMM, cBMM, GMM (3 covariance '
-        'types) and vMFMM with per-slice weights, and a start with singleton leading axes versus its explicit repetition; '
+        'types) and vMFMM with per-slice weights, a start with singleton leading axes versus its explicit repetition, and log_pdf of models '
+        'built from given stacked parameters (Bingham, cACG, Watson, vMF, Gaussian; slices differing by orders of magnitude or with equal '
+        'parameters inside a slice; per-slice saliency levels 1e-15..1e15) versus the model of each slice; '
         'non-trivial = >= 2 slices whose stand-alone results differ by > 1e-3; distinct by (entry point, lead shape, D, options)')
 DECIDING = ['C06.dist-fit', 'C06.dist-logpdf', 'C06.mixture', 'C06.singleton-init']
 MIN_DECIDED = {'quick': 150, 'thorough': 1500}
